@@ -36,6 +36,8 @@ inductive Ev
   | timer     -- the loop runs the sleep's timer handle (skipped if that handle was cancelled)
   | bodyEnd   -- `_on_timeout` returns
   | bodyRaise -- `_on_timeout` raises: the Task gets the exception, `_must_cancel` or not
+  | bodyCancelled -- `_on_timeout` leaves with CancelledError (e.g. it read a cancelled future): `__step` treats that like
+                  -- a delivered cancellation, the Task ends cancelled
   | cancel    -- Task.cancel() — from pop / clear / shutdown via cancel_pending_task
   deriving DecidableEq, Repr
 
@@ -63,6 +65,10 @@ def step (t : T) : Ev → T
   | .bodyRaise =>
     match t.phase with
     | .running => { t with phase := .finished, mustCancel := false }
+    | _ => t
+  | .bodyCancelled =>
+    match t.phase with
+    | .running => { t with phase := .cancelled, mustCancel := false }
     | _ => t
   | .cancel =>
     if isDone t then t
